@@ -27,11 +27,15 @@ static void describe(int tier, int prog, char * b, size_t n) {
   for (int i = 0; i < p->nth; i++) o += snprintf(b + o, n - o, " t%d ends by %s holding keys mask 0x%x", i, mname[p->mode[i]], p->mask[i]);
 }
 static prog_t * cur; static myth_key_t key[4]; static myth_mutex_t dm;
-static volatile int calls[4][2], wrong, holder_go, holder_done, in_dtor_migrated;
+static volatile int other_key_wrong; static volatile int calls[4][2], wrong, holder_go, holder_done, in_dtor_migrated;
 static void note(int k, void * v) { if (!v) return;   /* the native key interface also calls destructors for NULL values (tests/myth_key_destructor.c relies on it): neither demanded nor forbidden here */
   long x = (long)v; int t = (int)(x >> 8) - 1, kk = (int)(x & 0xff); if (t < 0 || t > 1 || kk != k) { wrong++; return; } calls[k][t]++; }
 static void d_yield(void * v) { int w0 = mv_worker(); myth_yield(); myth_yield(); if (mv_worker() != w0) { in_dtor_migrated = 1; mv_cover(0); } note(0, v); }
-static void d_plain(void * v) { note(2, v); }
+static void d_plain(void * v) {
+  /* a destructor may look at the thread's other values: what the thread stored under the key without destructor is still there */
+  if (v) { long x = (long)v; int t = (int)(x >> 8) - 1; if (t >= 0 && t <= 1 && (cur->mask[t] >> 1 & 1)) { void * o = myth_getspecific(key[1]); if (o != (void *)(long)(((t + 1) << 8) | 1)) other_key_wrong++; } }
+  note(2, v);
+}
 static void d_lock(void * v) { int w0 = mv_worker(); myth_mutex_lock(&dm); myth_mutex_unlock(&dm); if (mv_worker() != w0) mv_cover(1); note(3, v); }
 static void * holder(void * a) { (void)a; myth_mutex_lock(&dm); mv_point(&holder_go, sizeof(int)); holder_go = 1; myth_yield(); myth_yield(); myth_mutex_unlock(&dm); holder_done = 1; return 0; }
 static void * body(void * a) {
@@ -55,6 +59,7 @@ static void run(int tier, int prog) {
     if (cur->mode[i] != 2) MV_CHECK((long)r == 50 + i, "join of t%d delivered %ld", i, (long)r);
   }
   if (h) myth_join(h, 0);
+  MV_CHECK(other_key_wrong == 0, "inside the destructor of one key the thread's value under another live key (one without destructor) was gone or changed (%d time(s))", other_key_wrong);
   MV_CHECK(wrong == 0, "a destructor was called with a value that is not the exiting thread's value under that key (%d such calls)", wrong);
   for (int i = 0; i < cur->nth; i++) for (int k = 0; k < 4; k++) {
     int expect = (k != 1 && (cur->mask[i] >> k & 1)) ? 1 : 0;
